@@ -47,9 +47,12 @@ def _get_samplers_id_table(saving_folder: str | os.PathLike) -> dict[str, int]:
     """
     output_file = Path(saving_folder) / "scheduler_pickled.pickle"
     with output_file.open("rb") as f:
-        method_list = pickle.load(f)  # nosec B301
+        scheduler = pickle.load(f)  # nosec B301
 
-    return Calibrator._construct_samplers_id_table(method_list)  # noqa: SLF001
+    # the calibrator pickles its scheduler; older checkpoints hold the list of samplers
+    samplers = list(getattr(scheduler, "samplers", scheduler))
+
+    return Calibrator._construct_samplers_id_table(samplers)  # noqa: SLF001
 
 
 def _get_samplers_names(
